@@ -62,12 +62,25 @@ theorem sup_add_refuses_quantities_now (qS : Quantity) (x : Opd) (hd : x.q.isDef
   sup_add_refuses_quantities tables supTables flag_sup_add_checks_quantity qS x
     (defined_quantities_not_undefined_flag x.q (quantity_mem_all x.q) hd) hne
 
-/-- `-` is `+` of the negated operand, `==` goes through `-`: a refused operand is never equal -/
+/-- ALL tables, ALL operands: IF `__sub__` is `self + (-x)` and `__eq__` goes through `(self - x)`
+    (the two structural flags the translator reads from superposition.py) and `__add__` tests the
+    quantities, an operand of another defined quantity is refused by `-` and the comparison raises,
+    i.e. is never "equal" -/
+theorem sup_sub_eq_refuses (hadd : S.flags.supAddChecksQuantity = true)
+    (hsub : S.flags.supSubIsAddNeg = true) (heq : S.flags.supEqThroughSub = true)
+    (qS : Quantity) (x : Opd) (hu : isUndefinedFlag T x.q = false) (hne : x.q ≠ qS) :
+    supSub T S qS (.ex x) = .err .quantities ∧ supEqCompares T S qS (.ex x) = false := by
+  have h := sup_add_refuses_quantities T S hadd qS x hu hne
+  have h2 : supSub T S qS (.ex x) = .err .quantities := by simp [supSub, hsub, h]
+  exact ⟨h2, by simp [supEqCompares, heq, h2]⟩
+
+/-- the instance for the code as it is now (all three flags hold) -/
 theorem sup_sub_eq_refuse (qS : Quantity) (x : Opd) (hd : x.q.isDefined = true) (hne : x.q ≠ qS) :
     supSub tables supTables qS (.ex x) = .err .quantities ∧
-    supEqCompares tables supTables qS (.ex x) = false := by
-  have h := sup_add_refuses_quantities_now qS x hd hne
-  exact ⟨h, by simp [supEqCompares, supSub, h]⟩
+    supEqCompares tables supTables qS (.ex x) = false :=
+  sup_sub_eq_refuses tables supTables flag_sup_add_checks_quantity flag_sup_sub_is_add_neg
+    flag_sup_eq_through_sub qS x
+    (defined_quantities_not_undefined_flag x.q (quantity_mem_all x.q) hd) hne
 
 /-- an accepted sum is a Superposition of the SAME quantity, and whatever is stored carries it -/
 theorem sup_add_keeps_quantity (hf : S.flags.supAddChecksQuantity = true) (qS : Quantity) (a : SupArg)
